@@ -131,13 +131,15 @@ def build(pid, variant="main"):
         flags = [f for f in flags if f != "-fsanitize=address"] + ["-fsanitize=thread"]
     flags += v.get("cxxflags", cfg.get("cxxflags", []))
     cmds, objs = [], []
+    per_src = v.get("src_cxxflags", cfg.get("src_cxxflags", {}))  # extra flags for single repo sources (e.g. trace-pc instrumentation of the file under test only)
     for s in v.get("srcs", cfg.get("srcs", [])):
         sp = os.path.join(SRC, s)
-        key = sha("obj", " ".join(flags), s, read(sp), hd)
+        sflags = flags + per_src.get(s, [])
+        key = sha("obj", " ".join(sflags), s, read(sp), hd)
         o = os.path.join(OBJ, key + ".o")
         objs.append(o)
         if not os.path.exists(o):
-            cmds.append((flags + ["-c", sp, "-o", o if cov else o + ".tmp%d" % os.getpid()], s))
+            cmds.append((sflags + ["-c", sp, "-o", o if cov else o + ".tmp%d" % os.getpid()], s))
     run_parallel(cmds)
     for argv, _ in cmds:
         tmp = argv[-1]
